@@ -17,6 +17,8 @@ from farm import Farm, Case
 from genlib import gen_request, generate
 from checks.c03 import corruptions
 from checks.c04 import InputModel
+from checks.c05 import camel
+from genlib import snake
 
 DIMS = [
     ("normalization", ["none", "rust"]),
@@ -66,6 +68,10 @@ def operations(tier):
             Field("outcomes", [TN(), Inline("http_error", [Field("code")])])]
     out.append(("query over types whose names are not CamelCase",
                 Doc([Op("query", "Op", sel5, [("i", "search_input", None), ("o", "sort_order", None), ("t", "date_time", None)])])))
+    # an operation whose name is not stable under the generator's own case conversion (the module is its snake_case
+    # form; the struct follows the normalization; the name on the wire must stay the document's)
+    sel6 = [Field("user", [Field("id"), Field("name"), Field("role")], args=[("id", "$id")])]
+    out.append(("operation named lowerCamel_snake", Doc([Op("query", "lowerCamel_op", sel6, [("id", "ID!", None), ("r", "Role", None)])])))
     if tier == "thorough":
         sel4 = [Field("userChanged", [Field("role"), Field("since"), Field("friend", [TN(), Spread("NodeF")])])]
         out.append(("subscription", Doc(space.used_fragments(sel4, lib) + [Op("subscription", "Op", sel4, [("d", "Date", None)])])))
@@ -128,7 +134,10 @@ def run(tier):
         prelude = "pub type Date = String; pub type date_time = String; pub type DateTime = String;" if "custom_scalars_module" not in m["opts"] else ""
         if m["opts"].get("extern_enums"):
             prelude += EXTERN_ROLE
-        m["case"] = farm.add(Case(r["tokens"], [("op", "Op")], prelude=prelude))
+        opname = m["doc"].ops[0].name
+        struct = opname if m["opts"].get("normalization", "none") == "none" else camel(opname)
+        m["module"] = snake(opname)
+        m["case"] = farm.add(Case(r["tokens"], [(m["module"], struct)], prelude=prelude))
     farm.build()
     model = InputModel(schema)
     vectors = {}
@@ -157,10 +166,10 @@ def run(tier):
             continue
         vs, av, _ = vectors[m["oi"]]
         for i, (what, p) in enumerate(vs):
-            reqs.append({"case": m["case"], "module": "op", "what": "resp", "arg": p})
+            reqs.append({"case": m["case"], "module": m["module"], "what": "resp", "arg": p})
             meta.append((m, "resp", i))
         for i, a in enumerate(av):
-            reqs.append({"case": m["case"], "module": "op", "what": "vars", "arg": a})
+            reqs.append({"case": m["case"], "module": m["module"], "what": "vars", "arg": a})
             meta.append((m, "vars", i))
     log(f"[C09] {len(ops)} operations x {len(sets)} option sets = {len(mods)} modules, {len(reqs)} evaluations")
     fres = farm.run(reqs)
